@@ -93,8 +93,9 @@ class C19(Check):
             items[rng.randrange(len(items))]['blob'] = {'$big': [kind, n1, rng.randrange(1000)]}
         case = {'items': items, 'compression': rng.choice([None, 'gzip', 'zstd']), 'path': 'file' if rng.random() < 0.8 else 'mem',
                 'cutseed': rng.randrange(1 << 30)}
-        if big:
-            case['reads'] = []
+        if big or any('$big' in repr(i) for i in items):
+            # megabytes read in 1-byte pieces would be millions of read() calls: full-size or large reads only
+            case['reads'] = rng.choice([[], [4096], [65536, 1000, 30000]])
         else:
             case['reads'] = [rng.choice([1, 1, 2, 3, 5, 7, 13, 64, 500]) for _ in range(rng.choice([0, 1, 1, 2, 5]))]
         return case
